@@ -427,6 +427,10 @@ pub mod io {
     /// Called before a positional write. With an armed short-write failpoint the hook writes
     /// the first bytes itself and reports the error.
     pub fn on_write(file: &std::fs::File, offset: u64, buf: &[u8]) -> IOResult<OpGuard> {
+        on_write_impl(file, offset, buf, None)
+    }
+
+    fn on_write_impl(file: &std::fs::File, offset: u64, buf: &[u8], before: Option<(&[u8], u64)>) -> IOResult<OpGuard> {
         if let Some((path, s)) = session_for_fd(file.as_raw_fd()) {
             let op = s.ops.fetch_add(1, Ordering::SeqCst);
             let payload = if s.record_payload.load(Ordering::SeqCst) { Some(buf.to_vec()) } else { None };
@@ -434,6 +438,10 @@ pub mod io {
             s.log(op, true, Kind::Write, &path, None, offset, buf.len() as u64, payload, fp.is_some());
             if let Some(fp) = fp {
                 let n = fp.short.unwrap_or(0).min(buf.len() as u64) as usize;
+                if let Some((first, first_offset)) = before {
+                    // the first buffer of the record reached the file before the second one failed
+                    let _ = file.write_all_at(first, first_offset);
+                }
                 if n > 0 {
                     let _ = file.write_all_at(&buf[..n], offset);
                 }
@@ -443,6 +451,12 @@ pub mod io {
             return Ok(OpGuard(Some((s, op, Kind::Write, path, offset, buf.len() as u64))));
         }
         Ok(OpGuard::none())
+    }
+
+    /// Second buffer of a two-buffer record write: it lands right after the first buffer.
+    /// The begin event is logged before the first buffer is written (the write as a whole has begun).
+    pub fn on_write_second(file: &std::fs::File, offset: u64, first: &[u8], second: &[u8]) -> IOResult<OpGuard> {
+        on_write_impl(file, offset + first.len() as u64, second, Some((first, offset)))
     }
 
     pub fn on_sync(file: &std::fs::File) -> IOResult<OpGuard> {
